@@ -8,7 +8,7 @@ from common import jsonable
 def monitor(ctx, spec, r):
     name = spec["name"]
     cfg = spec.get("cfg") or {}
-    sig = dict(optimizer=name, population=cfg.get("population"))
+    sig = dict(optimizer=name, population=cfg.get("population"), replacement=cfg.get("replacement"))
     if r["exc"] is not None:
         sig.update(kind="raises", exception=r["exc"][0], phase=r.get("phase"))
         ctx.violation(sig, dict(spec=dunit.spec_full(spec), traceback=r["exc"][2]),
